@@ -443,11 +443,17 @@ func TestC13Big(t *testing.T) {
 			sw := b.Svc.VerifSwarm()
 			big := event.NewState("")
 			for i := 0; i < 80000; i++ {
-				bn := event.Ban(fmt.Sprintf("old-%d-%06d", ci, i))
+				bn := event.Ban(fmt.Sprintf("old-%d-%06d-%s", ci, i, strings.Repeat("k", 150))) // ~14 MB of state uncompressed, a few hundred KB on the wire
 				big.Add(&bn)
 			}
 			if _, err := sw.OnGossip(big.Encode()[0]); err != nil {
-				rec.Inconclusive("preload: " + err.Error())
+				rec.Case(vk.Hash("bigstate", shard, ci, "preload"), true)
+				rec.Violation(ci, "bigstate/legal-payload-rejected", "a well-formed gossip payload with 80 000 ban entries (encoded by the real State.Encode) was rejected by OnGossip: "+err.Error(), nil)
+				return
+			}
+			if n := len(sw.VerifState().VerifEntries(event.VerifBans)); n != 80000 {
+				rec.Case(vk.Hash("bigstate", shard, ci, "preload"), true)
+				rec.Violation(ci, "bigstate/merged-payload-truncated", fmt.Sprintf("a gossip payload with 80 000 ban entries was merged but the state holds %d of them", n), nil)
 				return
 			}
 			atomic.StoreInt64(&concClock, 6000+int64(ci))
